@@ -5,7 +5,6 @@ import (
 	"fmt"
 	"os"
 	"testing"
-	"time"
 
 	"verif/harness/model"
 	"verif/harness/run"
@@ -76,12 +75,11 @@ func replayOnce(r run.Replay) string {
 			}
 			done <- ""
 		}()
-		select {
-		case msg := <-done:
-			return msg
-		case <-time.After(run.HangLimit):
-			return "library call did not return within " + run.HangLimit.String()
+		msg, ok := run.AwaitBounded(done)
+		if !ok {
+			return "library call did not return within " + run.HangLimit.String() + " of CPU time"
 		}
+		return msg
 	case "nopanic":
 		for _, c := range r.Calls {
 			o := doCall(c)
